@@ -9,7 +9,7 @@ import ast
 
 from ..core import AnchorError, atoms, call_name, decorators, norm, short, own_nodes, kwarg, FUNC_TYPES
 from ..cfg import cfg_of
-from ..lib import calls_in, stmts_in, gate, must_pass, node_has, params, raised_name
+from ..lib import calls_in, stmts_in, gate, must_pass, node_has, params, raised_name, xnorm
 from .. import grammar as G
 from .c01 import supported_versions
 
@@ -58,7 +58,7 @@ def rule_a(repo, chk, all_versions=False):
     use = versions if all_versions else versions[:1]
     f = repo.find(REF, 'inline')
     # which table does inline consult for the parent type?
-    tests = [x for x in own_nodes(f) if isinstance(x, ast.Compare) and norm(x.left) == 'tree_name.parent.type' and isinstance(x.ops[0], ast.In)]
+    tests = [x for x in own_nodes(f) if isinstance(x, ast.Compare) and xnorm(x.left, f) == 'tree_name.parent.type' and isinstance(x.ops[0], ast.In)]
     chk.ob('C06.a', len(tests) == 1 and isinstance(tests[0].comparators[0], ast.Name), f, 'inline tests the use site\'s parent type against one table')
     if not tests or not isinstance(tests[0].comparators[0], ast.Name):
         return
@@ -90,7 +90,7 @@ def rule_a(repo, chk, all_versions=False):
                 cond = a.test
                 break
         disj = cond.values if isinstance(cond, ast.BoolOp) and isinstance(cond.op, ast.Or) else [cond]
-        texts = [norm(d) for d in disj]
+        texts = [xnorm(d, f) for d in disj]
         ok = any(t == 'tree_name.parent.type in %s' % tname for t in texts)
         chk.ob('C06.a', ok, s, 'the parent-type test is a top-level disjunct of the wrapping condition (it is not weakened by a conjunct about the inlined expression)', str(texts))
         ok = any(t == "rhs.type == 'testlist_star_expr'" for t in texts)
